@@ -6,6 +6,8 @@ pub assume_specification<T: PartialOrd> [<[T] as PartialOrd<[T]>>::le] (a: &[T],
     ensures r == (slice_lt(a@, b@) || a@ == b@);
 pub assume_specification<T: PartialOrd> [<[T] as PartialOrd<[T]>>::ge] (a: &[T], b: &[T]) -> (r: bool)
     ensures r == !slice_lt(a@, b@);
+pub assume_specification<T: PartialOrd> [<[T] as PartialOrd<[T]>>::gt] (a: &[T], b: &[T]) -> (r: bool)
+    ensures r == slice_lt(b@, a@);
 #[verifier::external_body]
 pub proof fn axiom_key_order()
     ensures
